@@ -1,5 +1,6 @@
 (* C20 - Windows command lines and MSBuild solutions are well-formed and stable.
    Only statements; proofs live in theories/. *)
+From Coq Require Import Permutation.
 From BFG Require Import Base.Chars Shell.WinQuote Shell.Msvcrt Shell.WinQuoteProofs Shell.WinSplit Shell.WinSplitProofs Shell.WinSplitExact
   State.Uuid State.UuidProofs.
 Local Open Scope N_scope.
@@ -238,6 +239,25 @@ Theorem C20_failed_run_keeps_file : forall (fresh : nat -> uuid) f n r f' n' o, 
 Proof. exact failed_run_keeps_file. Qed.
 Print Assumptions C20_failed_run_keeps_file.
 
+(* one Project entry per step and the default project first: a successful run whose steps have pairwise
+   distinct keys lists exactly the steps' projects (a permutation: no step is dropped or doubled, however
+   many explicit and implicit defaults the script declares), and when the chosen default - the first
+   explicit one, else the last implicit one (builtins/default.py msbuild_default) - is a step of the
+   solution, its project is the first entry *)
+Theorem C20_defaults_wellformed : forall (fresh : nat -> uuid) f n r f' n' su ps,
+  run fresh f n r = ((f', n'), RunOk (su, ps)) -> NoDup (map sp_key (r_specs r)) ->
+  Permutation (map p_name ps) (map sp_name (r_specs r)) /\
+  (forall k, default_choice (r_explicit r) (r_fallback r) = Some k -> In k (map sp_key (r_specs r)) ->
+     exists sp p, In sp (r_specs r) /\ sp_key sp = k /\ hd_error ps = Some p /\ p_name p = sp_name sp).
+Proof. exact default_wellformed. Qed.
+Print Assumptions C20_defaults_wellformed.
+
+(* the choice, by computation: several explicit defaults - the first; none - the last implicit one *)
+Example C20_default_choice :
+  default_choice [[2]; [1]; [3]] [[1]; [2]; [3]] = Some [2] /\ default_choice [] [[1]; [2]; [3]] = Some [3] /\
+  default_choice [] [] = None.
+Proof. repeat split. Qed.
+
 (* non-vacuity: a history add a,b(dep a) / failing run (unknown dependency) / remove a / re-add a, by
    computation: b keeps its GUID throughout, a gets a new one after the re-add, the dependency GUID of b
    resolves, the failing run leaves the file alone *)
@@ -247,10 +267,10 @@ Definition sB := {| sp_key := [2]; sp_name := [98]; sp_deps := [Some [1]; None] 
 Definition sB' := {| sp_key := [2]; sp_name := [98]; sp_deps := [] |}.
 Definition sBad := {| sp_key := [3]; sp_name := [99]; sp_deps := [Some [9]] |}.
 Definition ex_hist : list run_in :=
-  [ {| r_specs := [sA; sB]; r_default := Some [2] |};
-    {| r_specs := [sA; sBad]; r_default := None |};
-    {| r_specs := [sB']; r_default := None |};
-    {| r_specs := [sA; sB]; r_default := None |} ].
+  [ {| r_specs := [sA; sB]; r_explicit := [[2]; [1]]; r_fallback := [[1]; [2]] |};
+    {| r_specs := [sA; sBad]; r_explicit := []; r_fallback := [] |};
+    {| r_specs := [sB']; r_explicit := []; r_fallback := [] |};
+    {| r_specs := [sA; sB]; r_explicit := []; r_fallback := [] |} ].
 Example C20_history_nonvacuous :
   hist ex_fresh None 0 ex_hist =
   [ RunOk (1000, [ {| p_name := [98]; p_uuid := 1002; p_deps := [1001] |}; {| p_name := [97]; p_uuid := 1001; p_deps := [] |} ]);
@@ -265,14 +285,15 @@ Proof. split; vm_compute; reflexivity. Qed.
    - two steps with the same key: the later project replaces the earlier one in the solution and a
      dependency on the earlier one dangles (the closure theorem needs distinct keys);
    - set_default stores the default project under one literal key: a second call would overwrite the
-     first default project (bfg9000 calls it at most once per run). *)
+     first default project (bfg9000 calls it at most once per run: run applies it to default_choice only,
+     and the tie W:uuid_history drives the real msbuild_default hook with 0..3 explicit defaults). *)
 Example C20_same_name_shares_guid :
-  hist ex_fresh None 0 [ {| r_specs := [sA; {| sp_key := [2]; sp_name := [97]; sp_deps := [] |}]; r_default := None |} ] =
+  hist ex_fresh None 0 [ {| r_specs := [sA; {| sp_key := [2]; sp_name := [97]; sp_deps := [] |}]; r_explicit := []; r_fallback := [] |} ] =
   [ RunOk (1000, [ {| p_name := [97]; p_uuid := 1001; p_deps := [] |}; {| p_name := [97]; p_uuid := 1001; p_deps := [] |} ]) ].
 Proof. vm_compute; reflexivity. Qed.
 
 Example C20_same_key_dangling_dependency :
-  hist ex_fresh None 0 [ {| r_specs := [sA; sB; {| sp_key := [1]; sp_name := [99]; sp_deps := [] |}]; r_default := None |} ] =
+  hist ex_fresh None 0 [ {| r_specs := [sA; sB; {| sp_key := [1]; sp_name := [99]; sp_deps := [] |}]; r_explicit := []; r_fallback := [] |} ] =
   [ RunOk (1000, [ {| p_name := [99]; p_uuid := 1003; p_deps := [] |}; {| p_name := [98]; p_uuid := 1002; p_deps := [1001] |} ]) ].
 Proof. vm_compute; reflexivity. Qed.
 
